@@ -465,6 +465,13 @@ def key_of(div):
             changed = obs_c[changed].get("linksTo", {}).get(act.get("d"), changed)
         if act["n"] in ("SetTemperature", "Ramp", "SetDim", "SetLink") and stale != changed and changed not in obs_c[stale].get("linksTo", {}).values():
             return "replay:cached-volume-stale:link-chain"
+    if "observed 'RuntimeError'" in div["first_difference"] and "expected 'RuntimeError'" not in div["first_difference"]:
+        # a read the specification allows was refused ("linear expansion percent may not be implemented"): name the
+        # expanding solid whose correlation is involved (the component itself, or the one its link points at)
+        sides = [b["c%d" % (ci + 1)], b["c%d" % (2 - ci if ci < 2 else 1)]]
+        solid = [x["material"] for x in sides if x["kind"] == "solid"]
+        if solid:
+            return "replay:refused-read:%s" % solid[0]
     side = b["c%d" % (ci + 1)]
     who = side["material"] if head in ("nd", "tef", "exception", "T") else side["shape"]
     return "replay:%s:%s:%s" % (an, who, head)
